@@ -235,7 +235,8 @@ class TrioEventLoop(EventLoop):
         """
         with scope:
             await self._sleep(seconds)
-            callback()
+            if not scope.cancel_called:  # not removed while this task was waking up
+                callback()
 
     def _handle_main_loop_exception(self, exc: BaseException) -> None:
         """Handles exceptions raised from the main loop, catching ExitMainLoop
@@ -315,4 +316,6 @@ class TrioEventLoop(EventLoop):
             # closed and calling wait_readable with a closed fd does not work.
             while not scope.cancel_called:
                 await self._wait_readable(fd)
+                if scope.cancel_called:  # removed while this task was waking up
+                    break
                 callback()
